@@ -65,8 +65,11 @@ pub struct Scope {
     pub locals: Vec<Frame>,
     /// assign / capture
     pub globals: Frame,
-    /// caller data (empty inside `render`)
+    /// caller data (inside `render`: the explicit arguments)
     pub data: Frame,
+    /// inside `render`: counters are still shared through increment/decrement but are not
+    /// visible as variables (the sandbox hides every outer name)
+    pub isolated: bool,
 }
 
 #[derive(Default)]
@@ -117,6 +120,7 @@ pub fn run(nodes: &[Node], data: &RV, partials: &[(String, PartialDef)]) -> (Res
             RV::Obj(o) => o.clone(),
             _ => vec![],
         },
+        isolated: false,
     };
     let r = match it.exec(&tree, &mut scope) {
         Ok(Flow::Normal) => Ok(()),
@@ -144,8 +148,10 @@ impl<'a> Interp<'a> {
         if let Some(v) = frame_get(&sc.data, name) {
             layers.push((Layer::Data, v));
         }
-        if let Some(v) = frame_get(&self.counters, name) {
-            layers.push((Layer::Counter, v));
+        if !sc.isolated {
+            if let Some(v) = frame_get(&self.counters, name) {
+                layers.push((Layer::Counter, v));
+            }
         }
         if layers.len() >= 2 {
             for l in &layers[1..] {
@@ -611,7 +617,8 @@ impl<'a> Interp<'a> {
                             frame_set(&mut frame, k, v);
                         }
                         let body = self.partial(&pname, true)?;
-                        let mut inner = Scope { locals: vec![frame], globals: vec![], data: vec![] };
+                        // the arguments are what the partial starts from; its own assignments may rebind them
+                        let mut inner = Scope { locals: vec![], globals: vec![], data: frame, isolated: true };
                         self.depth += 1;
                         let r = self.exec(body, &mut inner);
                         self.depth -= 1;
@@ -632,7 +639,7 @@ impl<'a> Interp<'a> {
                             }));
                             frame_set(&mut f, k, item);
                             let body = self.partial(&pname, true)?;
-                            let mut inner = Scope { locals: vec![f], globals: vec![], data: vec![] };
+                            let mut inner = Scope { locals: vec![], globals: vec![], data: f, isolated: true };
                             self.depth += 1;
                             let r = self.exec(body, &mut inner);
                             self.depth -= 1;
@@ -844,6 +851,7 @@ pub fn cost_ok(nodes: &[Node], data: &RV, partials: &[(String, PartialDef)]) -> 
             RV::Obj(o) => o.clone(),
             _ => vec![],
         },
+        isolated: false,
     };
     !matches!(it.exec(nodes, &mut scope), Err(Stop::Budget))
 }
